@@ -101,7 +101,7 @@ def sd_exact(ex, p, q, mode):
 
 
 REG.contract(
-    "nixio.dimensions.SampledDimension.index_of", replay=dict(harness="c07_sampled"), props=["C07"],
+    "nixio.dimensions.SampledDimension.index_of", replay=dict(harness="c07_sampled"), props=["C07", "C08"],
     params=dict(self=Obj("SampledDimension"), position=Real, mode=Enum("IndexMode")), result=Int,
     requires=SD_DOMAIN,
     let=SD_LET + "q = rdiv(position - off, s); j = rhe(q); "
@@ -127,7 +127,7 @@ REG.contract(
 RANGE_RESULT = ("is_none(result) or (is_intseq(result) and len(as_intseq(result)) == 2)")
 
 REG.contract(
-    "nixio.dimensions.SampledDimension.range_indices", replay=dict(harness="c07_sampled"), props=["C07"],
+    "nixio.dimensions.SampledDimension.range_indices", replay=dict(harness="c07_sampled"), props=["C07", "C08"],
     params=dict(self=Obj("SampledDimension"), start_position=Real, end_position=Real, mode=Enum("SliceMode")),
     result=Dyn, requires=SD_DOMAIN,
     let=SD_LET + "qs = rdiv(start_position - off, s); qe = rdiv(end_position - off, s); js = rhe(qs); je = rhe(qe); "
@@ -191,7 +191,7 @@ def rd_holds(ex, p, T, i, pos, mode):
 
 
 REG.contract(
-    "nixio.dimensions.RangeDimension.index_of", replay=dict(harness="c07_range"), props=["C07"],
+    "nixio.dimensions.RangeDimension.index_of", replay=dict(harness="c07_range"), props=["C07", "C08"],
     params=dict(self=Obj("RangeDimension"), position=Real, mode=Enum("IndexMode"), ticks=Opt(SeqOf(Real))),
     result=Int,
     let="T = ite_(is_none(ticks), range_ticks(self), as_realseq(ticks)); n = len(T)",
@@ -206,7 +206,7 @@ REG.contract(
     prop_clauses=["rd.in", "rd.last", "rd.first", "raises-iff:IndexError", "raises-only:IndexError"])
 
 REG.contract(
-    "nixio.dimensions.RangeDimension.range_indices", replay=dict(harness="c07_range"), props=["C07"],
+    "nixio.dimensions.RangeDimension.range_indices", replay=dict(harness="c07_range"), props=["C07", "C08"],
     params=dict(self=Obj("RangeDimension"), start_position=Real, end_position=Real, mode=Enum("SliceMode")),
     result=Dyn,
     let="T = range_ticks(self); n = len(T); em = ite_(mode == SliceMode.Exclusive, IndexMode.Less, IndexMode.LessOrEqual)",
@@ -277,7 +277,7 @@ def set_exact(ex, p, pos, mode, n):
 
 
 REG.contract(
-    "nixio.dimensions.SetDimension.index_of", replay=dict(harness="c07_set"), props=["C07"],
+    "nixio.dimensions.SetDimension.index_of", replay=dict(harness="c07_set"), props=["C07", "C08"],
     params=dict(self=Obj("SetDimension"), position=Real, mode=Enum("IndexMode"), dim_labels=Opt(SeqOf(Str))),
     result=Int,
     let="L = ite_(is_none(dim_labels), set_labels(self), as_strseq(dim_labels)); n = len(L); j = floor_(position); "
@@ -288,7 +288,7 @@ REG.contract(
     prop_clauses=["idx", "idx.nonneg", "raises-only:IndexError"])
 
 REG.contract(
-    "nixio.dimensions.SetDimension.range_indices", replay=dict(harness="c07_set"), props=["C07"],
+    "nixio.dimensions.SetDimension.range_indices", replay=dict(harness="c07_set"), props=["C07", "C08"],
     params=dict(self=Obj("SetDimension"), start_position=Real, end_position=Real, mode=Enum("SliceMode")),
     result=Dyn,
     requires=["start_position <= end_position"],
